@@ -825,6 +825,12 @@ def desugar_qmark(toks, log):
         qi = None
         for k, t in enumerate(toks):
             if _is(t, 'punct', '?'):
+                # `?Sized` in a bound is not the operator
+                nx = k + 1
+                while nx < len(toks) and toks[nx].kind in ('ws', 'comment'):
+                    nx += 1
+                if nx < len(toks) and toks[nx].kind == 'ident' and toks[nx].text == 'Sized':
+                    continue
                 qi = k
                 break
         if qi is None:
